@@ -22,7 +22,7 @@ CHECKS = {
                 text="The final hierarchy is judged by the Lean decider `structured`; Scfg.C03.s1_acyclic / s2_sound / s3_sound prove what a true answer means "
                      "(no cycle of any length at any level, latch/back-edge shape, head/branch/tail shape).", ref="§7 C03"),
     "C04": dict(cat="translation_validation", tech="Lean 4: wf decider proved equivalent to the quantified predicate WF (wf_iff) on real outputs",
-                text="Every stage output is judged by `wf`; Scfg.C04.wf_iff proves wf H = true ↔ WF H (six quantified clauses).", ref="§7 C04"),
+                text="Every stage output is judged by `wf`; Scfg.C04.wf_iff proves wf H = true ↔ WF H (six quantified clauses). The property's conclusion is a theorem for every hierarchy (Props/C04Walks.lean, Scfg.C04.walks_coincide): WF H and back edges belonging to loop latches (s2) imply that whenever the walk region by region (declared header / exiting / region targets) meets no lookup error, the walk by block-level targets shows the identical trace under every decision sequence of any length (leave_fwd, leave_back, enter_resolve: going up through exiting blocks and down through headers ends at the block the name resolves to).", ref="§7 C04"),
     "C05": dict(cat="translation_validation", tech="Lean 4: conserved decider with soundness theorem (conserved_sound) on real outputs",
                 text="Every stage output is compared with the input by `conserved`; Scfg.C05.conserved_sound unfolds it into the property.", ref="§7 C05"),
     "C06": dict(cat="translation_validation", tech="Lean 4: verified closed-set check (invOK_sound) over the reachable configurations with consuming latches ⇒ no control-variable error on any path (no_ctl_error) + tablesOK",
